@@ -147,7 +147,7 @@ func (s *Solver) Check(query string, timeoutMs int, getVals []string) (Verdict, 
 	fmt.Fprintf(&sb, "(echo \"%s\")\n", marker)
 	t0 := time.Now()
 	lines, err := s.roundTrip(sb.String(), marker, time.Duration(timeoutMs)*time.Millisecond+20*time.Second)
-	if dd := os.Getenv("VERIF_DUMP_SLOW"); dd != "" && time.Since(t0) > 50*time.Millisecond {
+	if dd := os.Getenv("VERIF_DUMP_SLOW"); dd != "" && time.Since(t0) > time.Duration(envInt("VERIF_SLOW_MS", 50))*time.Millisecond {
 		os.WriteFile(fmt.Sprintf("%s/q_%d_%d.smt2", dd, os.Getpid(), s.nq), []byte(sb.String()+fmt.Sprintf("; took %v getvals=%d\n", time.Since(t0), len(getVals))), 0o644)
 	}
 	if err != nil {
